@@ -82,7 +82,9 @@ impl Cli {
 
     /// budget helper: quick / thorough case counts, scaled
     pub fn cases(&self, quick: u64, thorough: u64) -> u64 {
-        let base = if self.thorough { thorough } else { quick };
+        // quick budgets in the parts are written for ~1-3 s; the registered quick tier does 5x that
+        let quick_factor: u64 = std::env::var("VERIF_QUICK_FACTOR").ok().and_then(|s| s.parse().ok()).unwrap_or(5);
+        let base = if self.thorough { thorough } else { quick * quick_factor };
         ((base as f64) * self.scale).max(1.0) as u64
     }
 
